@@ -93,6 +93,9 @@ def random_config(rng: random.Random, *, rl: bool = False, heavy: bool = True) -
            "loss": rng.choice(LOSSES), "seed": rng.randrange(1, 2**31), "kind": "rl" if rl else "rr",
            "eps": rng.choice([0.0, 0.3]) if rl else 0.0, "batches": rng.randint(len(lineup) + 1, 2 * len(lineup) + 2)}
     cfg["scribble"] = rng.random() < 0.25       # a model that overwrites its parameter argument after use
+    # an explicit sim_length, other than the length of the real series where the loss compares summaries rather than points
+    cfg["simextra"] = rng.choice([0, 5, 11])      # (applied in build(), only under the method of moments)
+    cfg["convprec"] = rng.choice([None, None, 9, 12])             # a convergence precision that ordinary losses never meet
     cfg["f32"] = rng.random() < 0.25            # the model returns float32 series
     cfg["stale"] = rng.random() < 0.3           # (C05) the saving folder already holds the checkpoint of some other calibration
     return cfg
@@ -117,7 +120,8 @@ def build(cfg: dict, *, njobs=1, verbose=False, folder=None, ctor_seeds=False):
         kw["samplers"] = samplers
     return Calibrator(loss_function=make_loss(cfg["loss"]), real_data=real, model=model_for(cfg), parameters_bounds=cfg["bounds"],
                       parameters_precision=cfg["prec"], ensemble_size=cfg["E"], verbose=verbose, saving_folder=folder,
-                      random_state=cfg["seed"], n_jobs=njobs, **kw)
+                      random_state=cfg["seed"], n_jobs=njobs, sim_length=(cfg["N"] + cfg.get("simextra", 0)) if cfg["loss"] == "MethodOfMomentsLoss" else None,
+                      convergence_precision=cfg.get("convprec"), **kw)
 
 
 def _h(*arrays) -> str:
@@ -167,6 +171,20 @@ def run_variant(cfg: dict, axes: dict) -> list[dict]:
     evs = [{"e": "variant", "axes": ",".join(f"{k}={v}" for k, v in sorted(axes.items()))}]
     from .plugins import Hang, _watchdog
 
+    orig_seed = None
+    if cfg["kind"] == "rl":
+        # adversarial timing for whatever runs concurrently with the seed cascade (an agent thread, if one were already running):
+        # the cascade starts 30 ms late.  On the unchanged tree nothing runs yet, the delay changes nothing.
+        import time
+
+        from black_it.calibrator import Calibrator
+
+        orig_seed = Calibrator._set_samplers_seeds  # noqa: SLF001
+
+        def late(self):
+            time.sleep(0.03)
+            return orig_seed(self)
+        Calibrator._set_samplers_seeds = late  # noqa: SLF001
     try:
         with quiet(), _watchdog(900):
             cal = build(cfg, njobs=axes.get("njobs", 1), verbose=axes.get("verbose", False), folder=folder,
@@ -178,6 +196,10 @@ def run_variant(cfg: dict, axes: dict) -> list[dict]:
     except Exception as e:  # noqa: BLE001
         evs.append({"e": "crash", "what": f"{type(e).__name__}: {e}"[:200]})
     finally:
+        if orig_seed is not None:
+            from black_it.calibrator import Calibrator
+
+            Calibrator._set_samplers_seeds = orig_seed  # noqa: SLF001
         if folder:
             shutil.rmtree(folder, ignore_errors=True)
     return evs
